@@ -558,6 +558,16 @@ def _random_node_(seed):
                     and all(isinstance(x, (int, float)) for x in pay):
                 pay.sort()
         p.request(act, m, n, pay, _strict(shape, m, n))
+    # the unexported module 'h' (class of the first module): every accessible, commands with and without argument
+    for attr, a in next(iter(shape.values())).items():
+        nm = a['wire'] or attr
+        if a['kind'] == 'cmd':
+            p.request('do', 'h', nm, None)
+            if a['arg']['t'] != 'none':
+                p.request('do', 'h', nm, dc.conc(dc.rand_valid(rnd, a['arg'])))
+        elif not a.get('feature'):
+            for act in ('read', 'change', 'activate', 'do'):
+                p.request(act, 'h', nm, dc.conc(a['init']) if act == 'change' else None)
     p.history(w.mods, _const_assignments(shape))
     expect = _expect_of(shape, bases, feats)
     for m, accs in shape.items():
@@ -742,6 +752,16 @@ def _shipped(cfg):
         for act in ('read', 'change', 'do', 'activate'):
             p.request(act, m, 'value', 1 if act == 'change' else None)
         p.request('activate', m, '', None)
+    for m in hidden:        # every accessible of an unexported module under the name its class gives it
+        for a, aobj in type(sec.modules[m]).accessibles.items():
+            nm = aobj.export if isinstance(aobj.export, str) and aobj.export else a
+            if not a:
+                continue
+            if hasattr(aobj, 'argument'):       # a command: without payload (and nothing is executed if it is refused)
+                p.request('do', m, nm, None)
+            else:
+                for act in ('read', 'activate'):
+                    p.request(act, m, nm, None)
     p.request('describe', '', '', None)          # after all these reads and changes: the same report
     signal.alarm(0)
     hidden = [[m, w] for m, obj in sec.modules.items() for w, a in obj.accessiblename2attr.items()
